@@ -234,7 +234,7 @@ def repo_source_hash():
     return h.hexdigest()
 
 
-def build_impl(kind="drv", buf=None, hbuf=None, extra_flags=(), extra_srcs=(), opt="-O1"):
+def build_impl(kind="drv", buf=None, hbuf=None, extra_flags=(), extra_srcs=(), opt="-O1", reverse_link_order=False):
     """Builds a binary from /repo's current working tree, cached by content hash.
     kind: 'drv' (harness/drv.cpp + kernel), 'cli' (main.cpp + everything), or a harness source name."""
     flags = ["-std=c++17", opt, "-g", "-pthread", "-D" + GUARD]
@@ -252,6 +252,8 @@ def build_impl(kind="drv", buf=None, hbuf=None, extra_flags=(), extra_srcs=(), o
     h = hashlib.sha256()
     h.update(repo_source_hash().encode())
     h.update(" ".join(flags).encode())
+    if reverse_link_order:
+        h.update(b"reverse-link-order")
     for s in main_srcs:
         h.update(open(s, "rb").read())
     for s in os.listdir(HARNESS):
@@ -271,7 +273,7 @@ def build_impl(kind="drv", buf=None, hbuf=None, extra_flags=(), extra_srcs=(), o
             "@PROJECT_VERSION_MINOR@", "7").replace("@PROJECT_VERSION_PATCH@", "4").replace("@PROJECT_VERSION@", "3.7.4")
         open(os.path.join(gen, "config.h"), "w").write(cfg)
         cmd = ["g++"] + flags + ["-I" + gen, "-I" + HARNESS] + ["-I" + os.path.join(REPO, i) for i in INCLUDES] + main_srcs + \
-              [os.path.join(REPO, s) for s in KERNEL_SRCS] + ["-o", exe + ".tmp"]
+              [os.path.join(REPO, s) for s in (list(reversed(KERNEL_SRCS)) if reverse_link_order else KERNEL_SRCS)] + ["-o", exe + ".tmp"]
         if any("fsanitize" in f for f in flags) and "clang" in os.environ.get("WV_SAN_CXX", ""):
             cmd[0] = os.environ["WV_SAN_CXX"]
         rc, out = sh(cmd, timeout=900)
